@@ -106,6 +106,15 @@ def run(chk):
     from . import C08, C15, C17
 
     C08.merge_tree_part(chk)  # the merge tree the library builds merges every input exactly once
+    C08.partition_part(chk)  # how parallel_add partitions a stream: every item queued once, applied once
+    from . import C10, C16
+    from .. import glue as _g, pyexec as _X
+
+    C10.part(chk, ["HyperLogLog"])  # a sketch that went through save/load (also into shared memory) is the same sketch
+    try:
+        C16.loaded_shared(chk, _g.make_exec(chk), "HyperLogLog", chk.default_found)
+    except _X.Unsupported as e:
+        chk.undecided.append(("HyperLogLog.load(shared_memory=True)", "unsupported construct in glue: %s" % e))
 
     C15.merge_glue(chk, ["HyperLogLog"])  # merge() reaches the merge kernel on every accepting path
     C17.query_fresh(chk, chk.default_found)  # the estimate is a function of the current registers
